@@ -565,3 +565,66 @@ func Verif_C05_ActorsRunAfterAnyCommand() {
 	}
 	vr.Reach("end")
 }
+
+// ---- the background expiry pass against a concurrent write ----
+//
+// One pass of the expiry cycle over a key whose deadline has passed runs next to a client command on
+// that key (a plain SET, which gives it a value without deadline; PERSIST-like GETEX; a SET with a new
+// deadline in the future), with a pre-emption possible at every lock acquisition. Whatever the
+// interleaving, the outcome is that of one of the two serial orders: in both of them the key exists
+// afterwards with the client's value - the pass may only remove a key that is expired at the moment
+// it removes it.
+func Verif_C05_ExpiryPassVersusWrite() {
+	write := vr.Choose("write", 3)
+	vr.PreemptAtLocks(c05Bound())
+	t0 := time.UnixMilli(1_700_000_000_000)
+	k, other := "k", "other"
+	crashed, reply, dk, do := "", "", "", ""
+	wantK := "s:new"
+	if write == 1 {
+		wantK = "s:new@1700003600000"
+	}
+	wantOther := "s:x@" + itoa(int(t0.Add(time.Hour).UnixMilli()))
+	// natively the interleaving is left to the scheduler: the scenario is repeated on fresh servers until
+	// an outcome outside the serial ones shows up (one round under the symbolic executor, where the
+	// interleaving is a solver-named choice)
+	for round := 0; round < vr.Rounds(3000); round++ {
+		s := verifServer()
+		s.clock = verifClock{now: &t0}
+		s.config.EvictionSample = 20
+		verifPreset(s, 0, k, "old")
+		verifPresetExpiry(s, 0, k, t0.Add(-time.Second)) // already expired, not yet removed
+		verifPreset(s, 0, other, "x")
+		verifPresetExpiry(s, 0, other, t0.Add(time.Hour))
+		func() {
+			defer func() {
+				if x := recover(); x != nil {
+					crashed = fmt.Sprint(x)
+				}
+			}()
+			vr.Go(func() { _ = s.evictKeysWithExpiredTTL(verifCtx(0)) })
+			switch write {
+			case 0:
+				reply = c05Run(s, "SET", k, "new")
+			case 1:
+				reply = c05Run(s, "SET", k, "new", "PXAT", "1700003600000")
+			case 2:
+				reply = c05Run(s, "MSET", k, "new", "k2", "v2")
+			}
+			vr.Join()
+		}()
+		dk, do = c09Digest(s, 0, k), c09Digest(s, 0, other)
+		if crashed != "" || reply != "+OK\r\n" || dk != wantK || do != wantOther {
+			break
+		}
+	}
+	vr.Assert(!strings.Contains(crashed, "deadlock"), "C05.expiry_vs_write.nodeadlock")
+	if crashed != "" {
+		vr.Reach("end")
+		return
+	}
+	vr.Assert(reply == "+OK\r\n", "C05.expiry_vs_write.write_acknowledged")
+	vr.Assert(dk == wantK, "C05.expiry_vs_write.acknowledged_write_survives_the_pass")
+	vr.Assert(do == wantOther, "C05.expiry_vs_write.live_key_untouched")
+	vr.Reach("end")
+}
